@@ -9,7 +9,10 @@ CONSTANTS
   LegacyConcurrentWaits = FALSE
   LegacyStartedFirst = FALSE
   LegacyHandleClose = FALSE
+  MutUnregBeforeDone = FALSE
+  MutIsClosedInRunHandlers = FALSE
+  MutSkipStoppedWhenClosing = FALSE
   LegacySecondCloseNil = TRUE
-INVARIANTS Graceful ErrorOnlyOnTimeout NoPanic RunAfterClose SubClosedAtEnd DroppedNotHandled
+INVARIANTS NoStuck Graceful ErrorOnlyOnTimeout NoPanic RunAfterClose SubClosedAtEnd DroppedNotHandled
 
 CHECK_DEADLOCK FALSE
